@@ -189,3 +189,61 @@ Theorem C07_equivalent_lps_have_the_same_optima : forall (m1 m2 : milp), milp_eq
   forall a, (sat a m1 /\ forall b, sat b m1 -> obj_le m1 a b) <-> (sat a m2 /\ forall b, sat b m2 -> obj_le m2 a b).
 Proof. exact milp_equiv_optimal. Qed.
 Print Assumptions C07_equivalent_lps_have_the_same_optima.
+
+(* ------------------------------------------------------------------ END TO END, hypotheses about the caller's input only *)
+(* kLeastAbsErrors is feasible for every k >= 1 on every DAG (caller data as in C08_kmpe_end_to_end_feasible, plus a topological
+   order; no subpath constraints): k copies of one source-to-sink path -- which exists because every edge of a DAG lies on one --
+   with weight 0 and errors f; and, relative to the solver specification, the optimum is at most sum_e scale_e * f(e). *)
+From FP Require Import Aug AugProofs PathCoverComplete EndToEnd1 EndToEnd2 EndToEnd3 EndToEndCover EndToEndExample EndToEndErr EndToEndErrExample.
+Theorem C07_klae_end_to_end_feasible : forall (V : list node) (E : list PathEnc.edge) (s t : node) (topo : list node) (f : PathEnc.edge -> Z)
+    (ign : list PathEnc.edge) (scale : list (PathEnc.edge * Q)) (cons : list (list PathEnc.edge)) (cov : Q),
+  ~ In s V -> ~ In t V -> s <> t -> (forall e, In e E -> In (fst e) V /\ In (snd e) V) -> NoDup V -> NoDup E ->
+  (forall u v, In (u, v) E -> (posn topo u < posn topo v)%nat) ->
+  (forall e, In e E -> (0 <= f e)%Z) -> (forall es, In es scale -> (0 <= snd es <= 1)%Q) ->
+  (forall c e, In c cons -> In e c -> In e E) ->
+  (exists e, In e E /\ mem_edge e ign = false /\ mem_edge e (map fst (filter (fun es => Qeq_bool (snd es) 0) scale)) = false) ->
+  forall k, cons = [] -> (1 <= k)%nat ->
+  exists a, sat a (encode_klae (e2e_err_inst V E s t f ign scale cons cov k)) /\
+            (objective a (encode_klae (e2e_err_inst V E s t f ign scale cons cov k))
+             == sumq (fun e => scale_of (e2e_err_inst V E s t f ign scale cons cov k) e * flow_of (e2e_err_inst V E s t f ign scale cons cov k) e)
+                     (basic_edges (e2e_err_inst V E s t f ign scale cons cov k)))%Q.
+Proof. exact klae_end_to_end_feasible. Qed.
+Print Assumptions C07_klae_end_to_end_feasible.
+
+(* with subpath constraints: any k >= 1 source-to-sink paths that cover them *)
+Theorem C07_klae_end_to_end_feasible_paths : forall (V : list node) (E : list PathEnc.edge) (s t : node) (f : PathEnc.edge -> Z)
+    (ign : list PathEnc.edge) (scale : list (PathEnc.edge * Q)) (cons : list (list PathEnc.edge)) (cov : Q),
+  ~ In s V -> ~ In t V -> s <> t -> (forall e, In e E -> In (fst e) V /\ In (snd e) V) -> NoDup V -> NoDup E ->
+  (forall e, In e E -> (0 <= f e)%Z) -> (forall es, In es scale -> (0 <= snd es <= 1)%Q) ->
+  (forall c e, In c cons -> In e c -> In e E) ->
+  (exists e, In e E /\ mem_edge e ign = false /\ mem_edge e (map fst (filter (fun es => Qeq_bool (snd es) 0) scale)) = false) ->
+  forall (k : nat) (P : N -> list node), (1 <= k)%nat -> st_paths (st_of V E s t) k P -> constraints_covered (e2e_base V E s t cons cov k) P ->
+  exists a, sat a (encode_klae (e2e_err_inst V E s t f ign scale cons cov k)) /\
+            (objective a (encode_klae (e2e_err_inst V E s t f ign scale cons cov k))
+             == sumq (fun e => scale_of (e2e_err_inst V E s t f ign scale cons cov k) e * flow_of (e2e_err_inst V E s t f ign scale cons cov k) e)
+                     (basic_edges (e2e_err_inst V E s t f ign scale cons cov k)))%Q.
+Proof. exact klae_end_to_end_feasible_paths. Qed.
+Print Assumptions C07_klae_end_to_end_feasible_paths.
+
+Theorem C07_klae_end_to_end_optimum_bound : forall (V : list node) (E : list PathEnc.edge) (s t : node) (topo : list node) (f : PathEnc.edge -> Z)
+    (ign : list PathEnc.edge) (scale : list (PathEnc.edge * Q)) (cons : list (list PathEnc.edge)) (cov : Q),
+  ~ In s V -> ~ In t V -> s <> t -> (forall e, In e E -> In (fst e) V /\ In (snd e) V) -> NoDup V -> NoDup E ->
+  (forall u v, In (u, v) E -> (posn topo u < posn topo v)%nat) ->
+  (forall e, In e E -> (0 <= f e)%Z) -> (forall es, In es scale -> (0 <= snd es <= 1)%Q) ->
+  (forall c e, In c cons -> In e c -> In e E) ->
+  (exists e, In e E /\ mem_edge e ign = false /\ mem_edge e (map fst (filter (fun es => Qeq_bool (snd es) 0) scale)) = false) ->
+  forall (k : nat) (a : var -> Q), cons = [] -> (1 <= k)%nat ->
+  sat a (encode_klae (e2e_err_inst V E s t f ign scale cons cov k)) ->
+  (forall b, sat b (encode_klae (e2e_err_inst V E s t f ign scale cons cov k)) ->
+     (objective a (encode_klae (e2e_err_inst V E s t f ign scale cons cov k)) <= objective b (encode_klae (e2e_err_inst V E s t f ign scale cons cov k)))%Q) ->
+  (objective a (encode_klae (e2e_err_inst V E s t f ign scale cons cov k))
+   <= sumq (fun e => scale_of (e2e_err_inst V E s t f ign scale cons cov k) e * flow_of (e2e_err_inst V E s t f ign scale cons cov k) e)
+           (basic_edges (e2e_err_inst V E s t f ign scale cons cov k)))%Q.
+Proof. exact klae_end_to_end_optimum_bound. Qed.
+Print Assumptions C07_klae_end_to_end_optimum_bound.
+
+(* non-vacuity on the diamond of EndToEndExample.v: feasible for every k >= 1, with objective sum f = 10 for the constructed point *)
+Example C07_end_to_end_example :
+  forall k, (1 <= k)%nat -> exists a, sat a (encode_klae (e2e_err_inst xV xE 0%N 5%N xf [] [] [] 1%Q k)) /\
+     (objective a (encode_klae (e2e_err_inst xV xE 0%N 5%N xf [] [] [] 1%Q k)) == 10)%Q.
+Proof. exact (proj2 e2e_err_example). Qed.
